@@ -1,4 +1,4 @@
-CONSTANT Rate = 13
+CONSTANTS Rate = 13  OpenParse = TRUE
 INIT MCInit
 NEXT MCNext
 INVARIANTS Laws Emit
